@@ -36,7 +36,7 @@ TW = 'INVARIANT Twin_Prefix\nINVARIANT Twin_SameEnd\nINVARIANT C08_StopsAsLimit'
 
 
 def w(name, **kw):
-    d = dict(faithful='"F8"', runs='"A"', maxval=4, maxiter=3, maxf=1, extra='PROPERTY C09_ObserverStutter')
+    d = dict(faithful='', runs='"A"', maxval=4, maxiter=3, maxf=1, extra='PROPERTY C09_ObserverStutter')
     d.update(kw)
     open(name, 'w').write(TEMPLATE % d)
 
@@ -53,3 +53,4 @@ w('GF_twin_obs.cfg', space='TwinObsCfgs', runs='"A", "B"', maxiter=2, extra=TW)
 w('GF_q_twin_obs.cfg', space='QTwinObsCfgs', runs='"A", "B"', maxiter=2, maxval=3, extra=TW)
 w('GF_twin_hist.cfg', space='TwinHistCfgs', runs='"A", "B", "C"', maxiter=2, extra=TW)
 w('GF_q_twin_hist.cfg', space='QTwinHistCfgs', runs='"A", "B", "C"', maxiter=2, maxval=3, extra=TW)
+w('GF_w_F8.cfg', space='QTwinStopCfgs', runs='"A", "B"', maxiter=2, maxval=3, extra=TW, faithful='"F8"')
